@@ -266,7 +266,7 @@ class Resolver:
             for subnode in PreOrderIter(node):
                 try:
                     for match in self.__glob(subnode, remainder):
-                        if match not in matches:
+                        if not any(match is known for known in matches):
                             matches.append(match)
                 except ChildResolverError:
                     pass
